@@ -368,6 +368,12 @@ func checkC06(c *Check) {
 			if searchAvoiding(fn, nil, func(in ssa.Instruction) bool { return in == ret }, containsEmit) == nil {
 				continue
 			}
+			// ... along branches that can be taken: a guard on the index of a
+			// group that exists in the constant pattern ("SubexpIndex < 0",
+			// "index >= len(match)") is never true
+			if !reachableFeasible(fn, ret, containsEmit, func(b *ssa.BasicBlock, succ int) bool { return deadGroupIndexEdge(r, rx, b, succ) }) {
+				continue
+			}
 			if len(ret.Results) > 0 && nilKind(r, ret.Results[len(ret.Results)-1], ret) == NonNil {
 				continue
 			}
@@ -827,4 +833,133 @@ func wholeLineMatchAnchored(c *Check, d *Dispatch, rx map[string]*RegexVar) {
 		walk(row.Fn, NewResolver(p), 0)
 	}
 	c.Floor("patterns matched against the whole line in entry functions", 15, n)
+}
+
+
+// reachableFeasible: target is reachable from the entry of fn without
+// executing a barrier instruction and without taking an edge that dead
+// reports as infeasible.
+func reachableFeasible(fn *ssa.Function, target ssa.Instruction, barrier func(ssa.Instruction) bool, dead func(b *ssa.BasicBlock, succ int) bool) bool {
+	if len(fn.Blocks) == 0 {
+		return false
+	}
+	seen := map[*ssa.BasicBlock]bool{fn.Blocks[0]: true}
+	work := []*ssa.BasicBlock{fn.Blocks[0]}
+	for len(work) > 0 {
+		b := work[len(work)-1]
+		work = work[:len(work)-1]
+		blocked := false
+		for _, in := range b.Instrs {
+			if in == target {
+				return true
+			}
+			if barrier != nil && barrier(in) {
+				blocked = true
+				break
+			}
+		}
+		if blocked {
+			continue
+		}
+		for i, s := range b.Succs {
+			if dead != nil && len(b.Succs) == 2 && dead(b, i) {
+				continue
+			}
+			if !seen[s] {
+				seen[s] = true
+				work = append(work, s)
+			}
+		}
+	}
+	return false
+}
+
+// deadGroupIndexEdge: the edge (b -> b.Succs[succ]) requires that the index
+// of a named group that exists in a constant pattern is negative, or is not
+// below the length of a (non-nil) match of that same pattern: such an edge
+// is never taken.
+func deadGroupIndexEdge(r *Resolver, rx map[string]*RegexVar, b *ssa.BasicBlock, succ int) bool {
+	if len(b.Instrs) == 0 {
+		return false
+	}
+	iff, ok := b.Instrs[len(b.Instrs)-1].(*ssa.If)
+	if !ok {
+		return false
+	}
+	cond := iff.Cond
+	pos := succ == 0
+	for {
+		if u, ok := cond.(*ssa.UnOp); ok && u.Op == token.NOT {
+			cond, pos = u.X, !pos
+			continue
+		}
+		break
+	}
+	bo, ok := cond.(*ssa.BinOp)
+	if !ok {
+		return false
+	}
+	// existing-group index: which pattern
+	idxPattern := func(v ssa.Value) string {
+		o := r.Of(v)
+		if o.K != "call" || o.Name != "(*regexp.Regexp).SubexpIndex" {
+			return ""
+		}
+		g := regexGlobalOfArg(o, 0)
+		name, isC := callArgOrg(o, 1).ConstString()
+		rv := rx[g]
+		if rv == nil || rv.Tree == nil || !isC || !rv.HasGroup(name) {
+			return ""
+		}
+		return g
+	}
+	lenOfMatch := func(v ssa.Value) string {
+		cl, ok := v.(*ssa.Call)
+		if !ok {
+			return ""
+		}
+		bi, ok := cl.Call.Value.(*ssa.Builtin)
+		if !ok || bi.Name() != "len" || len(cl.Call.Args) != 1 {
+			return ""
+		}
+		mc := matchCallOf(cl.Call.Args[0])
+		if mc == nil {
+			return ""
+		}
+		return regexGlobalOf(mc.Call.Args[0])
+	}
+	op := bo.Op
+	x, y := bo.X, bo.Y
+	// normalise to "idx OP other"
+	if idxPattern(x) == "" && idxPattern(y) != "" {
+		x, y = y, x
+		op = flipOp(op)
+	}
+	g := idxPattern(x)
+	if g == "" {
+		return false
+	}
+	if !pos {
+		op = negOp(op)
+	}
+	if k, okK := intConstOf(y); okK {
+		// idx < 0, idx <= -1, idx == -1 are never true
+		switch op {
+		case token.LSS:
+			return k <= 0
+		case token.LEQ:
+			return k < 0
+		case token.EQL:
+			return k < 0
+		}
+		return false
+	}
+	if lg := lenOfMatch(y); lg != "" && lg == g {
+		// idx >= len(match), idx > len(match)-? : the match of the same pattern has every group
+		switch op {
+		case token.GEQ, token.GTR:
+			return true
+		}
+	}
+	return false
 }
